@@ -68,6 +68,18 @@ func iv(v value.Type) int {
 	return i
 }
 
+// pushClosure calls PushClosure whether it takes the frame or a pointer to it.
+func pushClosure(m *memory.Type, f memory.Frame) {
+	switch pc := any(m).(type) {
+	case interface{ PushClosure(memory.Frame) }:
+		pc.PushClosure(f)
+	case interface{ PushClosure(*memory.Frame) }:
+		pc.PushClosure(&f)
+	default:
+		panic("c18: unknown PushClosure signature")
+	}
+}
+
 // capture asks the memory for the frame a closure holds on to: Capture() where
 // it exists, the live Top() slice otherwise (trees before the closure repair).
 func capture(m *memory.Type) *memory.Frame {
@@ -173,7 +185,7 @@ func (mm *memMachine) apply(op memOp) (why string, ok bool) {
 			e := []int{}
 			cm = &e
 		}
-		cur.real.PushClosure(cr)
+		pushClosure(cur.real, cr)
 		f.closure = cm
 		f.retmark = mm.nv()
 		cur.real.Push(rv(f.retmark))
